@@ -58,6 +58,10 @@ type Sched struct {
 	byGoid  map[uint64]*thread
 	free    atomic.Bool // pass-through mode: gates no longer park
 	Limit   time.Duration
+	// Patient: threads legitimately wait for goroutines outside the scheduler (background workers of a
+	// whole database): a thread waiting in a sync primitive is not reported as blocked, the controller
+	// keeps waiting until it parks or finishes (or Limit expires).
+	Patient bool
 	// Filter, when set, decides whether a gate parks the calling thread (default: every gate).
 	Filter func(point string, path string, args []uint64) bool
 }
@@ -275,8 +279,11 @@ func (s *Sched) waitQuiet() bool {
 			buf = make([]byte, 2*len(buf))
 			n = runtime.Stack(buf, true)
 		}
-		allBlocked := true
+		allBlocked := !s.Patient
 		for _, t := range running {
+			if s.Patient {
+				break
+			}
 			if !goroutineBlocked(buf[:n], t.goid) {
 				allBlocked = false
 				break
